@@ -81,6 +81,22 @@ const preludeAxioms = `(assert (forall ((r Int)) (! (=> (<= r 0) (existed r)) :p
 (assert (forall ((q BSeq) (a Int) (b Int) (c Int)) (! (=> (and (<= 0 a) (<= a b) (<= b c) (<= c (seq_len q))) (= (seq_cat (seq_sub q a b) (seq_sub q b c)) (seq_sub q a c))) :pattern ((seq_cat (seq_sub q a b) (seq_sub q b c))))))
 (assert (forall ((q BSeq) (a Int)) (! (= (seq_sub q a a) seq_empty) :pattern ((seq_sub q a a)))))
 (assert (forall ((q BSeq) (n Int)) (! (=> (<= n 0) (= (seq_sub q 0 n) seq_empty)) :pattern ((seq_sub q 0 n)))))
+(assert (forall ((b Int)) (! (=> (>= b 0) (= (bor 0 b) b)) :pattern ((bor 0 b)))))
+(assert (forall ((a Int)) (! (=> (>= a 0) (= (bor a 0) a)) :pattern ((bor a 0)))))
+(assert (forall ((a Int) (b Int)) (! (=> (and (>= a 0) (= (mod a 2) 0) (<= 0 b) (< b 2)) (= (bor a b) (+ a b))) :pattern ((bor a b)))))
+(assert (forall ((a Int) (b Int)) (! (=> (and (>= a 0) (= (mod a 4) 0) (<= 0 b) (< b 4)) (= (bor a b) (+ a b))) :pattern ((bor a b)))))
+(assert (forall ((a Int) (b Int)) (! (=> (and (>= a 0) (= (mod a 8) 0) (<= 0 b) (< b 8)) (= (bor a b) (+ a b))) :pattern ((bor a b)))))
+(assert (forall ((a Int) (b Int)) (! (=> (and (>= a 0) (= (mod a 16) 0) (<= 0 b) (< b 16)) (= (bor a b) (+ a b))) :pattern ((bor a b)))))
+(assert (forall ((a Int) (b Int)) (! (=> (and (>= a 0) (= (mod a 256) 0) (<= 0 b) (< b 256)) (= (bor a b) (+ a b))) :pattern ((bor a b)))))
+(assert (forall ((a Int) (b Int)) (! (=> (and (>= a 0) (= (mod a 4096) 0) (<= 0 b) (< b 4096)) (= (bor a b) (+ a b))) :pattern ((bor a b)))))
+(assert (forall ((a Int) (b Int)) (! (=> (and (>= a 0) (= (mod a 65536) 0) (<= 0 b) (< b 65536)) (= (bor a b) (+ a b))) :pattern ((bor a b)))))
+(assert (forall ((a Int) (b Int)) (! (=> (and (>= a 0) (= (mod a 16777216) 0) (<= 0 b) (< b 16777216)) (= (bor a b) (+ a b))) :pattern ((bor a b)))))
+(assert (forall ((a Int) (b Int)) (! (=> (and (>= a 0) (= (mod a 134217728) 0) (<= 0 b) (< b 134217728)) (= (bor a b) (+ a b))) :pattern ((bor a b)))))
+(assert (forall ((a Int) (b Int)) (! (=> (and (>= a 0) (= (mod a 2147483648) 0) (<= 0 b) (< b 2147483648)) (= (bor a b) (+ a b))) :pattern ((bor a b)))))
+(assert (forall ((a Int) (b Int)) (! (=> (and (>= a 0) (= (mod a 4294967296) 0) (<= 0 b) (< b 4294967296)) (= (bor a b) (+ a b))) :pattern ((bor a b)))))
+(assert (forall ((a Int) (b Int)) (! (=> (and (>= a 0) (= (mod a 1099511627776) 0) (<= 0 b) (< b 1099511627776)) (= (bor a b) (+ a b))) :pattern ((bor a b)))))
+(assert (forall ((a Int) (b Int)) (! (=> (and (>= a 0) (= (mod a 281474976710656) 0) (<= 0 b) (< b 281474976710656)) (= (bor a b) (+ a b))) :pattern ((bor a b)))))
+(assert (forall ((a Int) (b Int)) (! (=> (and (>= a 0) (= (mod a 72057594037927936) 0) (<= 0 b) (< b 72057594037927936)) (= (bor a b) (+ a b))) :pattern ((bor a b)))))
 (assert (forall ((a Int) (b Int)) (! (=> (and (>= a 0) (>= b 0)) (and (<= 0 (band a b)) (<= (band a b) a) (<= (band a b) b))) :pattern ((band a b)))))
 (assert (forall ((a Int) (b Int)) (! (=> (and (>= a 0) (>= b 0)) (and (<= a (bor a b)) (<= b (bor a b)) (<= (bor a b) (+ a b)))) :pattern ((bor a b)))))
 `
